@@ -11,6 +11,7 @@ FAMILIES = [("Sat3", "any"), ("Sat3", "any"), ("Rat", "acyclic"), ("Bool", "any"
 
 
 def generate(rng, tier, shard, nshards):
+    event = gops.variant_event(rng)
     yield from generate_family(rng, shard, nshards)
     # integer token ids (0 included): a token is never "no token"
     for gi in range(3 if tier == "quick" else 20):
@@ -20,10 +21,10 @@ def generate(rng, tier, shard, nshards):
         g.add(gops.us.mk(g.R, 1), g.S, 0)
         G, _ = cfg_proj(g)
         for p in fam.strings(g.V, 2):
-            yield gops.event("prefix", {"sr": srn, "G": G, "s": gops.seq(p), "how": "prefix_weight"}, site="prefix_weight",
+            yield event("prefix", {"sr": srn, "G": G, "s": gops.seq(p), "how": "prefix_weight"}, site="prefix_weight",
                              feat="int-tokens")
-        yield gops.event("prefixgrammar", {"sr": srn, "G": G, "L": 2}, site="prefix_grammar", feat="int-tokens")
-        yield gops.event("derivative", {"sr": srn, "G": G, "pre": gops.seq((0,)), "L": 2}, site="derivative", feat="int-tokens")
+        yield event("prefixgrammar", {"sr": srn, "G": G, "L": 2}, site="prefix_grammar", feat="int-tokens")
+        yield event("derivative", {"sr": srn, "G": G, "pre": gops.seq((0,)), "L": 2}, site="derivative", feat="int-tokens")
     n = 12 if tier == "quick" else 120
     L = 3 if tier == "quick" else 4
     for gi in range(n):
@@ -38,26 +39,26 @@ def generate(rng, tier, shard, nshards):
         base = {"sr": srn, "G": G, "names": names}
         for p in fam.strings(g.V, L):
             ps = [str(x) for x in p]
-            yield gops.event("prefix", dict(base, s=ps, how="prefix_weight"), site="prefix_weight", feat=feat)
+            yield event("prefix", dict(base, s=ps, how="prefix_weight"), site="prefix_weight", feat=feat)
             if len(p) <= 2:
-                yield gops.event("prefix", dict(base, s=ps, how="derivatives"), site="derivatives.treesum", feat=feat)
-        yield gops.event("prefixgrammar", dict(base, L=2 if len(G["rules"]) > 4 else 3), site="prefix_grammar", feat=feat)
+                yield event("prefix", dict(base, s=ps, how="derivatives"), site="derivatives.treesum", feat=feat)
+        yield event("prefixgrammar", dict(base, L=2 if len(G["rules"]) > 4 else 3), site="prefix_grammar", feat=feat)
         for a in sorted(g.V):
-            yield gops.event("derivative", dict(base, pre=[a], L=2), site="derivative", feat=feat)
+            yield event("derivative", dict(base, pre=[a], L=2), site="derivative", feat=feat)
             for y in fam.strings(g.V, 2):
-                yield gops.event("derivcall", dict(base, pre=[a], y=[str(x) for x in y]), site="derivative(a)(y)", feat=feat)
+                yield event("derivcall", dict(base, pre=[a], y=[str(x) for x in y]), site="derivative(a)(y)", feat=feat)
         if gi % 2 == 0:
             pre = [rng.choice(sorted(g.V)) for _ in range(2)]
-            yield gops.event("derivative", dict(base, pre=pre, L=2), site="derivative.derivative", feat=feat)
+            yield event("derivative", dict(base, pre=pre, L=2), site="derivative.derivative", feat=feat)
         else:
             # repeated derivatives with explicit indices (the same token twice with different indices, too)
             a = rng.choice(sorted(g.V))
             pre = [a, rng.choice([a, a] + sorted(g.V))]
             idx = [rng.choice([0, 1, None]), rng.choice([0, 1, 2])]
-            yield gops.event("derivative", dict(base, pre=pre, idx=idx, L=2), site="derivative(a, i).derivative(b, j)",
+            yield event("derivative", dict(base, pre=pre, idx=idx, L=2), site="derivative(a, i).derivative(b, j)",
                              feat=feat + "+indexed")
             for y in fam.strings(g.V, 2):
-                yield gops.event("derivcall", dict(base, pre=pre, idx=idx, y=[str(x) for x in y]), site="derivative(a, i)(y)",
+                yield event("derivcall", dict(base, pre=pre, idx=idx, y=[str(x) for x in y]), site="derivative(a, i)(y)",
                                  feat=feat + "+indexed")
 
 
